@@ -625,8 +625,9 @@ def lock_program(body):
             if (ch == ";" and depth[j] == d0) or (ch in "{}" and depth[j + 1] == d0):
                 return j + 1
         return 0
-    for m in LOCK_RE.finditer(body):
-        rank = lock_rank(m.group(1))
+    RULES_RE = re.compile(r"[A-Za-z_][\w\.]*\s*\.\s*rules\s*\(\s*\)\s*\.\s*await")     # GlobalState::rules() returns the read guard
+    found = [(m, lock_rank(m.group(1))) for m in LOCK_RE.finditer(body)] + [(m, 3) for m in RULES_RE.finditer(body)]
+    for m, rank in found:
         st = stmt_start(m.start())
         head = body[st:m.start()]
         after = body[m.end():m.end() + 3].strip()
@@ -639,10 +640,6 @@ def lock_program(body):
             events.append((end, -1, "rel", rank))
         else:
             events.append((stmt_end(m.end()), -1, "rel", rank))
-    for m in re.finditer(r"\.\s*rules\s*\(\s*\)\s*\.\s*await", body):
-        # GlobalState::rules() returns the read guard of the rule list; used as a temporary
-        events.append((m.start(), 0, "acq", 3))
-        events.append((stmt_end(m.end()), -1, "rel", 3))
     for m in EXT_RE.finditer(body):
         events.append((m.start(), 1, "ext", -1))
     events.sort()
@@ -657,9 +654,13 @@ def gen_locks():
     progs = []
     h11c = src("src/common/h11c.rs")
     progs.append(("h11c_handshake", lock_program(fn_body(h11c, "h11c_handshake"))))
+    if re.search(r"\bfn\s+h11c_handshake_request\b", h11c):
+        progs.append(("h11c_handshake_request", lock_program(fn_body(h11c, "h11c_handshake_request"))))
     progs.append(("h11c_connect", lock_program(fn_body(h11c, "h11c_connect"))))
     socks = src("src/listeners/socks.rs")
     progs.append(("socks_handshake", lock_program(fn_body(socks, "handshake"))))
+    if re.search(r"\bfn\s+handshake_request\b", socks):
+        progs.append(("socks_handshake_request", lock_program(fn_body(socks, "handshake_request"))))
     metrics = src("src/metrics.rs")
     for name in ("get_alive", "get_history", "get_rules", "post_rules"):
         m = re.search(r"handler!\s*\(\s*%s\b" % name, metrics)
